@@ -374,6 +374,70 @@ func TestC04_SignTamper(t *testing.T) {
 	})
 }
 
+// ---- (iv) signing is refused once FINGERPRINT is present ---------------------
+
+type c04Refuse struct {
+	Attrs []bop `json:"attrs"` // message content; contains a FINGERPRINT at some position
+	Sign  bop   `json:"sign"`
+}
+
+func runC04Refuse(c c04Refuse) error {
+	b, err := startBuilder(bop{Kind: "start-build", Sub: c.Attrs})
+	if err != nil {
+		return err
+	}
+	m := b.m
+	fpAt := -1
+	for i, a := range m.Attributes {
+		if a.Type == stun.AttrFingerprint {
+			fpAt = i
+		}
+	}
+	if fpAt < 0 {
+		return fmt.Errorf("harness: no FINGERPRINT in the generated message")
+	}
+	s, _, _, _ := c.Sign.setter()
+	before := snapMsg(m)
+	var aerr, perr error
+	guarded("C04", "refuse", c, func() { perr = pbt.Safely(func() { aerr = s.AddTo(m) }) })
+	if perr != nil {
+		return perr
+	}
+	if aerr != stun.ErrFingerprintBeforeIntegrity { //nolint:errorlint
+		return fmt.Errorf("signing a message whose attribute %d of %d is FINGERPRINT returned %v, want ErrFingerprintBeforeIntegrity", fpAt, len(before.attrs), aerr)
+	}
+	if derr := before.diff(m); derr != nil {
+		return fmt.Errorf("refused signing modified the message: %w", derr)
+	}
+
+	return nil
+}
+
+func TestC04_Refuse(t *testing.T) {
+	rec := evid.For("C04")
+	c04Notes(rec)
+	pbt.Check(t, rec, "refuse", evid.Pick(3000, 60000), func(rt *rapid.T) (any, error) {
+		var c c04Refuse
+		nb := rapid.IntRange(0, 4).Draw(rt, "nBefore")
+		for i := 0; i < nb; i++ {
+			c.Attrs = append(c.Attrs, sanitizeSeal(genAttrOp(rt, false, 40), false))
+		}
+		if rapid.IntRange(0, 3).Draw(rt, "rawFP") == 0 {
+			c.Attrs = append(c.Attrs, bop{Kind: "raw", Type: 0x8028, Val: toHex(gen.Bytes(rt, rapid.IntRange(0, 8).Draw(rt, "fpLen"), "fpVal"))})
+		} else {
+			c.Attrs = append(c.Attrs, bop{Kind: "fp"})
+		}
+		na := rapid.IntRange(0, 3).Draw(rt, "nAfter")
+		for i := 0; i < na; i++ {
+			c.Attrs = append(c.Attrs, sanitizeSeal(genAttrOp(rt, false, 40), false))
+		}
+		c.Sign = bop{Kind: rapid.SampledFrom([]string{"mi", "mishort", "milong"}).Draw(rt, "signKind"), Key: toHex(genKey(rt)), Pass: "pw", User: "u", Realm: "r"}
+		rec.Case("refuse", evid.NewH().Str(fmt.Sprint(c)).Sum(), na > 0, func() any { return c })
+
+		return c, runC04Refuse(c)
+	})
+}
+
 func TestC04_Replay(t *testing.T) { replayAll(t, "C04") }
 
 func init() {
@@ -384,6 +448,14 @@ func init() {
 		}
 
 		return runC04Verify(c)
+	}
+	replayers["C04/refuse"] = func(raw json.RawMessage) error {
+		var c c04Refuse
+		if err := json.Unmarshal(raw, &c); err != nil {
+			return err
+		}
+
+		return runC04Refuse(c)
 	}
 	replayers["C04/sign"] = func(raw json.RawMessage) error {
 		var c c04Sign
